@@ -102,6 +102,13 @@ def examine_point(row, c, age, carriers=('float',), spelling=None):
             break
         if first is None:
             first = p
+            # the same call with the documented optional arguments handed over by position (age fourth, esaa fifth)
+            if c % 7 == 0 or esaa:
+                rp = call(athlib.athlon_score, gs, es, value, age, bool(esaa is True))
+                if rp[:2] != r[:2]:
+                    out.append(V('equals-formula', ['points', kind, 'positional-arguments-differ', age_class(age)],
+                                 dict(case, carrier=carrier, positional=True), rp[:3], p))
+                    break
         elif p != first:
             out.append(V('carrier-independent', ['carrier', kind], dict(case, carrier=carrier), p, first))
     v = centi_float(c)
